@@ -208,6 +208,24 @@ def check_mol(n, csel, catom, c0, btype, version, kind):
             return "structure set into a record of a read file is lost"
         if k["r1"].get_structure().element.tolist() != atoms.element.tolist() or k["r1"].metadata["Some_Key"] != "line1\nline2":
             return "the untouched record changed"
+        # records taken over from a READ file (still unparsed) into another file under NEW names, mixed with a fresh
+        # record: names and order of the new file survive, contents stay
+        lib = SDFile.read(io.StringIO(text))
+        nf = SDFile()
+        nf["second_name"] = lib["r0"]
+        nf["first_name"] = lib["r1"]
+        fresh = SDRecord()
+        fresh.set_structure(atoms, version=ver)
+        nf["third_name"] = fresh
+        out3 = io.StringIO()
+        nf.write(out3)
+        q = SDFile.read(io.StringIO(out3.getvalue()))
+        if list(q.keys()) != ["second_name", "first_name", "third_name"]:
+            return f"records of a read file stored under new names come back as {list(q.keys())}"
+        if q["first_name"].header.mol_name != "first_name" or q["first_name"].metadata["Some_Key"] != "line1\nline2":
+            return "record stored under a new name lost its name / metadata"
+        if q["first_name"].get_structure().element.tolist() != atoms.element.tolist():
+            return "record stored under a new name lost its structure"
     if back.element.tolist() != atoms.element.tolist():
         return f"elements {back.element.tolist()}"
     if not np.allclose(back.coord, atoms.coord, atol=0.000051):
